@@ -129,6 +129,9 @@ func loadConfig() *Config {
 	files, _ := filepath.Glob(filepath.Join(verifDir, "checks.d", "*.json"))
 	sort.Strings(files)
 	for _, f := range files {
+		if strings.HasSuffix(f, ".unit.json") {
+			continue
+		}
 		fb, err := os.ReadFile(f)
 		if err != nil {
 			die(2, "%s: %v", f, err)
@@ -886,7 +889,11 @@ func failLine(log string) string {
 func writeManifest(cfg *Config) {
 	claimed := map[string]bool{}
 	var checks []map[string]any
+	pall, _ := os.ReadFile(filepath.Join(verifDir, "properties.jsonl"))
 	for _, c := range cfg.Checks {
+		if !strings.Contains(string(pall), `"id": "`+c.ID+`"`) && !strings.Contains(string(pall), `"id":"`+c.ID+`"`) {
+			continue // development-only check ids are not part of the interface
+		}
 		claimed[c.ID] = true
 		checks = append(checks, map[string]any{
 			"property_id":         c.ID,
